@@ -7,6 +7,7 @@ mod util;
 mod frag;
 mod value;
 mod wire;
+mod router;
 
 fn main() {
     let args: Vec<String> = std::env::args().collect();
@@ -17,6 +18,7 @@ fn main() {
     match args[1].as_str() {
         "frag" => frag::run(&args[2..]),
         "wire" => wire::run(&args[2..]),
+        "router" => router::run(&args[2..]),
         s => {
             eprintln!("unknown scenario {}", s);
             std::process::exit(2);
